@@ -174,6 +174,39 @@ func longParseInputs(fam string, quickTier bool) []parseExport {
 	rawOid := func(seed byte) []string { return []string{strings.Repeat(string([]byte{seed}), 20)} }
 	yes := true
 	var out []parseExport
+	if fam == "tree" {
+		// object ids made of one byte value (twenty NULs as `git mktree` writes for a null gitlink, spaces, LFs, ASCII
+		// zeros) in the only / first / middle / last entry: an entry is an entry whatever it points at
+		for _, fill := range []byte{0x00, 0x20, 0x0a, '0', 0xff} {
+			for _, pos := range []int{-1, 0, 1, 2} {
+				x := parseExport{Kind: "tree"}
+				no := false
+				x.Expect.Err = &no
+				n := 3
+				if pos == -1 {
+					n = 1
+				}
+				for i := 0; i < n; i++ {
+					oid := rawOid(byte(0x41 + i))
+					if i == pos || pos == -1 {
+						oid = rawOid(fill)
+					}
+					mode, mt := uint(0o160000), "160000"
+					if i == 1 {
+						mode, mt = 0o100644, "100644"
+					}
+					name := fmt.Sprintf("e%d", i)
+					x.Bytes = append(append(x.Bytes, mt, "SP", name, "NUL"), oid...)
+					x.Expect.Entries = append(x.Expect.Entries, struct {
+						Mode uint     `json:"mode"`
+						Name []string `json:"name"`
+						OID  []string `json:"oid"`
+					}{mode, []string{name}, oid})
+				}
+				out = append(out, x)
+			}
+		}
+	}
 	for _, n := range sizes {
 		long := strings.Repeat("n", n)
 		switch fam {
